@@ -31,7 +31,11 @@ type Node struct {
 	HasValue bool   // leaves always have one
 	Value    []byte
 	Hashed   bool // the value is stored as its BLAKE2b-256 hash (state version 1, len > 32)
-	Children [16]*Child
+	// StaleHashFlag: a branch without value whose in-memory node still carries
+	// MustBeHashed=true (pkg/trie/inmemory leaves the flag set when the large
+	// value of a branch is deleted). The encoding is that of a plain branch.
+	StaleHashFlag bool
+	Children      [16]*Child
 }
 
 // Child of a branch: an opaque 32-byte reference, or a node that is inlined
@@ -134,6 +138,9 @@ func (n *Node) describe(sb *strings.Builder) {
 	} else {
 		fmt.Fprintf(sb, "[pk %d:%x]", len(n.PK), n.PK)
 	}
+	if !n.HasValue && n.StaleHashFlag {
+		sb.WriteString("(stale MustBeHashed)")
+	}
 	if n.HasValue {
 		h := ""
 		if n.Hashed {
@@ -224,6 +231,7 @@ var ValueLens = []int{0, 1, 2, 8, 31, 32, 33, 34, 63, 64, 65, 100, 16383, 16384}
 func genValue(t *rapid.T, n *Node, allowNone bool) {
 	mode := rapid.IntRange(0, 5).Draw(t, "vmode")
 	if allowNone && mode == 0 {
+		n.StaleHashFlag = rapid.Bool().Draw(t, "staleHashFlag")
 		return
 	}
 	n.HasValue = true
